@@ -11,7 +11,9 @@ Items: ('text', s, live) | ('tag', src, capable, tl, tr, out, live, indent_parti
 """
 
 BLANK = ' \t'
-WS = ' \t\r\n'
+# `~` removes ALL whitespace (Unicode White_Space, as Rust's trim does); the standalone rule knows only spaces and tabs
+WS = (' \t\r\n\x0b\x0c\x85\xa0\u1680\u2000\u2001\u2002\u2003\u2004\u2005\u2006\u2007\u2008\u2009\u200a'
+      '\u2028\u2029\u202f\u205f\u3000')
 
 
 def source(items):
